@@ -1,46 +1,77 @@
 (* C17/Properties.v — property theorems only: statement, `exact`, Print Assumptions. *)
 From Coq Require Import ZArith List Bool.
-From C17 Require Import Generated Model Proofs.
+From C17 Require Import Generated Model Proofs Inflight.
 Import ListNotations.
 Open Scope Z_scope.
 
-(* T17.sound — the verified checker: if check_crash accepts a (recorded or generated) trace of a sequence of
-   sets, then at every crash point and for every allowed loss of unsynced data (durable content, or any byte
-   prefix of the volatile content, chosen per file) every key of ks reads its last completed value before and
-   after each set, and every key other than the one in flight does so at every instant inside a set. *)
+(* T17.sound + complete — the verified checker decides crash safety of a (recorded or generated) trace of a
+   sequence of sets: check_crash accepts it IFF at every crash point and for every allowed loss (name lost,
+   durable content, any byte prefix of the volatile content, torn overwrite; chosen per file) every key of ks
+   reads its last completed value before and after each set, and every key other than the one in flight does
+   so at every instant inside a set. *)
 Theorem C17_check_crash_sound : forall jr ks sets,
-  check_crash jr ks sets = true -> safe_from jr ks [] [] sets.
-Proof. exact (fun jr ks sets => check_from_sound jr ks sets [] []). Qed.
+  check_crash jr ks sets = true -> safe_from jr ks empty_state [] sets.
+Proof. exact (fun jr ks sets => proj1 (check_from_iff jr ks sets empty_state [])). Qed.
 Print Assumptions C17_check_crash_sound.
 
-(* T17.isolation — for ALL flags, both persistence variants, all payloads, all states and all instants j of a
-   set on key n: the crash candidates of every other key are untouched. *)
-Theorem C17_isolation : forall jr fl uf bs dirs n b st j k, k <> n ->
-  cands_of (run jr st (firstn j (set_trace fl uf bs dirs n b))) k = cands_of st k.
+Theorem C17_check_crash_complete : forall jr ks sets,
+  safe_from jr ks empty_state [] sets -> check_crash jr ks sets = true.
+Proof. exact (fun jr ks sets => proj2 (check_from_iff jr ks sets empty_state [])). Qed.
+Print Assumptions C17_check_crash_complete.
+
+(* T17.isolation — for ALL flags, both persistence variants, all payloads, all instants j of a set on key n and
+   every state in which the ancestors of existing files are known directories: the set adds NO crash outcome to
+   any other key (it can only remove the outcome "name lost", by syncing a shared directory). *)
+Theorem C17_isolation : forall jr fl uf sd bs st st0 n b j k, k <> n -> dirs_closed st ->
+  incl (cands_of (run jr st (firstn j (set_trace fl uf sd bs st0 n b))) k) (cands_of st k).
 Proof. exact isolation. Qed.
 Print Assumptions C17_isolation.
 
-(* T17.durable — the code as it is now (flags regenerated from the source: use_fsync=True at the call site,
-   f.flush() before os.fsync): every sequence of sets of any payloads on any keys, any buffer size, is crash
-   safe in the journalled variant: a completed set is durable, an interrupted one harms no other key. *)
-Theorem C17_completed_sets_durable : forall bs ks dirs sets,
-  safe_from true ks [] [] (sets_trace flush_before_fsync kvs_use_fsync bs dirs sets).
-Proof. exact (journalled_safe_flag kvs_use_fsync flush_before_fsync eq_refl eq_refl). Qed.
+(* T17.durable — the FULL statement, for the code as it is now (flags regenerated from the source: use_fsync=True at
+   the call site, f.flush() before os.fsync, fsync of every directory that got a new entry): in BOTH persistence
+   variants every sequence of sets of any payloads on any keys (first-time keys and new directories included), for
+   any buffer size, is crash safe: a completed set is durable, an interrupted one harms no other key. *)
+Theorem C17_completed_sets_durable : forall jr bs ks sets,
+  safe_from jr ks empty_state [] (sets_trace jr flush_before_fsync kvs_use_fsync sync_new_dirs bs empty_state sets).
+Proof. exact (safe_flag kvs_use_fsync flush_before_fsync sync_new_dirs eq_refl eq_refl eq_refl). Qed.
 Print Assumptions C17_completed_sets_durable.
 
+(* the same from any settled directory found at opening (every file synced and named durably) *)
+Theorem C17_completed_sets_durable_from : forall jr bs ks st e sets,
+  clean st -> (forall k, exp_of e k = value_of st k) ->
+  safe_from jr ks st e (sets_trace jr flush_before_fsync kvs_use_fsync sync_new_dirs bs st sets).
+Proof. exact (safe_from_state_flag kvs_use_fsync flush_before_fsync sync_new_dirs eq_refl eq_refl eq_refl). Qed.
+Print Assumptions C17_completed_sets_durable_from.
+
+(* journalled variant: holds without the directory syncs *)
+Theorem C17_journalled_durable_without_dir_sync : forall sd bs ks sets,
+  safe_from true ks empty_state [] (sets_trace true flush_before_fsync kvs_use_fsync sd bs empty_state sets).
+Proof. exact (journalled_safe_flag kvs_use_fsync flush_before_fsync eq_refl eq_refl). Qed.
+Print Assumptions C17_journalled_durable_without_dir_sync.
+
 (* T17.durable_large — payloads larger than the buffer are durable whether or not the code flushes *)
-Theorem C17_large_payload_durable : forall fl bs ks dirs sets,
+Theorem C17_large_payload_durable : forall fl sd bs ks sets,
   Forall (fun nb => direct bs (snd nb) = true) sets ->
-  safe_from true ks [] [] (sets_trace fl kvs_use_fsync bs dirs sets).
+  safe_from true ks empty_state [] (sets_trace true fl kvs_use_fsync sd bs empty_state sets).
 Proof. exact (large_safe_flag kvs_use_fsync eq_refl). Qed.
 Print Assumptions C17_large_payload_durable.
 
-(* strict variant: keys that already have a durable directory entry *)
-Theorem C17_strict_existing_keys_durable : forall bs ks dirs st e sets, settled st e ->
-  Forall (fun nb => exists f d, assoc st (fst nb) = Some f /\ f_dur f = Some d) sets ->
-  safe_from false ks st e (sets_trace flush_before_fsync kvs_use_fsync bs dirs sets).
-Proof. exact (strict_safe_flag kvs_use_fsync flush_before_fsync eq_refl eq_refl). Qed.
-Print Assumptions C17_strict_existing_keys_durable.
+(* T17.torn — what a crash at ANY instant j of a set on key n (payload b, from any settled state, both variants) can leave
+   of key n ITSELF: its previous completed value (None if it had none), a byte prefix of b (the empty file included: the
+   earlier completed value of the same key CAN be lost, the code truncates in place), or such a prefix laid over the
+   previous value (torn in-place overwrite).  Nothing else; and by C17_isolation nothing at all happens to other keys. *)
+Theorem C17_inflight_outcomes : forall jr sd bs st n b j c,
+  clean st ->
+  In c (cands_of (run jr st (firstn j (set_trace flush_before_fsync kvs_use_fsync sd bs st n b))) n) ->
+  allowed (value_of st n) b c.
+Proof.
+  exact (fun jr sd bs st n b j c =>
+           eq_ind_r (fun uf => clean st -> In c (cands_of (run jr st (firstn j (set_trace flush_before_fsync uf sd bs st n b))) n) ->
+                               allowed (value_of st n) b c)
+                    (inflight_outcomes jr flush_before_fsync sd bs st n b j c (or_introl (eq_refl : flush_before_fsync = true)))
+                    (eq_refl : kvs_use_fsync = true)).
+Qed.
+Print Assumptions C17_inflight_outcomes.
 
 (* the trace the theorems are about has the shape the translator recognised in _write_file *)
 Theorem C17_write_file_shape : write_file_shape_ok = true.
@@ -48,34 +79,53 @@ Proof. exact eq_refl. Qed.
 Print Assumptions C17_write_file_shape.
 
 (* ---- refutations ---- *)
-(* R11 (fixed): without f.flush() a payload that fits the buffer is written at close, after the fsync:
-   trace open, fsync, write, close; after the set has returned a crash may leave the empty file. *)
+Definition evs_of (sets : list (name * bytes * list ev)) : list (list ev) := map (fun x => snd x) sets.
+
+(* R11 (fixed 94454e7): without f.flush() a payload that fits the buffer is written at close, after the fsync *)
 Theorem C17_small_refuted_without_flush :
-  let sets := sets_trace false true 4 [] [([1], [7; 8; 9])] in
-  map (fun x => snd x) sets = [[Open [1]; Fsync [1]; Write [1] [7; 8; 9]; Close [1]]] /\
+  let sets := sets_trace true false true true 4 empty_state [([1], [7; 8; 9])] in
+  evs_of sets = [[Open [1]; Fsync [1]; Write [1] [7; 8; 9]; Close [1]; FsyncDir []]] /\
   check_crash true [[1]] sets = false /\
-  In (Some []) (cands_of (run true [] (concat (map (fun x => snd x) sets))) [1]).
+  In (Some []) (cands_of (run true empty_state (concat (evs_of sets))) [1]).
 Proof. vm_compute. repeat split; auto. Qed.
 
-(* strict variant, first-time key: no directory is ever synced, the completed set can vanish *)
-Theorem C17_newkey_refuted_strict :
-  let sets := sets_trace true true 4 [] [([1; 2], [7; 8; 9])] in
+(* strict variant (fixed b99ea56): without the directory syncs the completed first set of a key can vanish *)
+Theorem C17_newkey_refuted_strict_without_dir_sync :
+  let sets := sets_trace false true true false 4 empty_state [([1; 2], [7; 8; 9])] in
   check_crash false [[1; 2]] sets = false /\
-  In None (cands_of (run false [] (concat (map (fun x => snd x) sets))) [1; 2]).
+  In None (cands_of (run false empty_state (concat (evs_of sets))) [1; 2]).
+Proof. vm_compute. split; auto. Qed.
+
+(* syncing only the file's own directory is not enough when makedirs created its parent *)
+Theorem C17_newdir_needs_the_whole_chain :
+  let evs := [Mkdir [1]; Open [1; 2]; Write [1; 2] [7]; Fsync [1; 2]; Close [1; 2]; FsyncDir [1]] in
+  In None (cands_of (run false empty_state evs) [1; 2]) /\
+  cands_of (run false empty_state (evs ++ [FsyncDir []])) [1; 2] = [Some [7]].
 Proof. vm_compute. split; auto. Qed.
 
 (* without use_fsync=True nothing is durable *)
 Theorem C17_refuted_without_fsync :
-  check_crash true [[1]] (sets_trace true false 4 [] [([1], [7; 8; 9; 10; 11])]) = false.
+  check_crash true [[1]] (sets_trace true true false true 4 empty_state [([1], [7; 8; 9; 10; 11])]) = false.
 Proof. vm_compute. reflexivity. Qed.
 
 (* ---- non-vacuity ---- *)
 Example C17_example :
-  let sets := sets_trace true true 4 [] [([1], [7; 8]); ([2; 3], [1; 2; 3; 4; 5; 6]); ([1], [9]); ([2; 4], [])] in
-  map (fun x => snd x) sets =
-    [[Open [1]; Write [1] [7; 8]; Fsync [1]; Close [1]];
-     [Mkdir [2]; Open [2; 3]; Write [2; 3] [1; 2; 3; 4; 5; 6]; Fsync [2; 3]; Close [2; 3]];
+  let sets := sets_trace false true true true 4 empty_state
+                [([1], [7; 8]); ([2; 3], [1; 2; 3; 4; 5; 6]); ([1], [9]); ([2; 4], []); ([5; 6; 7], [1])] in
+  evs_of sets =
+    [[Open [1]; Write [1] [7; 8]; Fsync [1]; Close [1]; FsyncDir []];
+     [Mkdir [2]; Open [2; 3]; Write [2; 3] [1; 2; 3; 4; 5; 6]; Fsync [2; 3]; Close [2; 3]; FsyncDir [2]; FsyncDir []];
      [Open [1]; Write [1] [9]; Fsync [1]; Close [1]];
-     [Open [2; 4]; Fsync [2; 4]; Close [2; 4]]] /\
-  check_crash true [[1]; [2; 3]; [2; 4]; [5]] sets = true.
-Proof. vm_compute. split; reflexivity. Qed.
+     [Open [2; 4]; Fsync [2; 4]; Close [2; 4]; FsyncDir [2]];
+     [Mkdir [5]; Mkdir [5; 6]; Open [5; 6; 7]; Write [5; 6; 7] [1]; Fsync [5; 6; 7]; Close [5; 6; 7];
+      FsyncDir [5; 6]; FsyncDir [5]; FsyncDir []]] /\
+  check_crash false [[1]; [2; 3]; [2; 4]; [5; 6; 7]; [9]] sets = true /\
+  check_crash true [[1]; [2; 3]; [2; 4]; [5; 6; 7]; [9]] sets = true.
+Proof. vm_compute. repeat split; reflexivity. Qed.
+
+(* the key in flight during an overwrite of [5;6] by [7;8;9]: after open+write and before fsync *)
+Example C17_example_inflight :
+  let st := run false empty_state [Open [1]; Write [1] [5; 6]; Fsync [1]; Close [1]; FsyncDir []] in
+  cands_of (run false st [Open [1]; Write [1] [7; 8; 9]]) [1]
+  = [Some [5; 6]; Some []; Some [7]; Some [7; 8]; Some [7; 8; 9]; Some [5; 6]; Some [7; 6]; Some [7; 8]; Some [7; 8; 9]].
+Proof. vm_compute. reflexivity. Qed.
